@@ -1,6 +1,96 @@
 import EupsModel.Drv.Util
+import EupsModel.Model.Expand
 namespace EupsModel.Drv.C17
-open Lean EupsModel EupsModel.Drv
-/-- placeholder until the C17 model exists -/
-def handle : Handler := fun _ => throw "model C17 not built"
+open Lean EupsModel EupsModel.Drv EupsModel.Expand
+
+def pairs (j : Json) (k : String) : Except String (List (Str × Str)) := do
+  (← jarr j k).mapM fun p => do
+    match (← p.getArr?).toList with
+    | [a, b] => pure (Str.ofString (← a.getStr?), Str.ofString (← b.getStr?))
+    | _ => throw s!"{k}: expected [name, version]"
+
+def depsOf (j : Json) : Except String (List ((Str × Str) × Option (List Dep))) := do
+  (← jarr j "deps").mapM fun e => do
+    match (← e.getArr?).toList with
+    | [n, v, r] =>
+      let key := (Str.ofString (← n.getStr?), Str.ofString (← v.getStr?))
+      match r with
+      | Json.null => pure (key, none)
+      | _ =>
+        let l ← (← r.getArr?).toList.mapM fun d => do
+          match (← d.getArr?).toList with
+          | [dn, dv, dopt] => pure (Dep.mk (Str.ofString (← dn.getStr?)) (Str.ofString (← dv.getStr?)) (← dopt.getBool?))
+          | _ => throw "deps: expected [name, version, optional]"
+        pure (key, some l)
+    | _ => throw "deps: expected [name, version, null | list]"
+
+/-- a line as Python's file iteration yields it: no newline except possibly as last character -/
+def wellFormedLine (l : Str) : Bool := !(l.dropLast.contains 10)
+
+def errName : Err → String
+  | .flagNeedsArg => "FlagNeedsArg"
+  | .badRelop => "BadRelop"
+  | .notSetup => "NotSetup"
+  | .depsRaised => "DepsRaised"
+  | .indexError => "IndexError"
+  | .missingAnswer => "MissingAnswer"
+
+def kindName : LKind → String
+  | .blank => "blank" | .setup => "setup" | .other => "other"
+
+def itemJson : Item → Json
+  | .orig ind k t => Json.mkObj [("t", "orig"), ("ind", Json.num ind), ("kind", kindName k), ("text", ofStr t)]
+  | .gen ind t => Json.mkObj [("t", "gen"), ("ind", Json.num ind), ("text", ofStr t)]
+  | .pin ind opt n v => Json.mkObj [("t", "pin"), ("ind", Json.num ind), ("optional", opt), ("name", ofStr n), ("version", ofStr v)]
+  | .fin t => Json.mkObj [("t", "fin"), ("text", ofStr t)]
+
+/-- `{"m":"c17","op":"expand","lines":[..],"pins":[[n,v]..],"toplevel":s|null,"force":b,"expandVersions":b,
+"addExactBlock":b,"recurse":b,"spv":[[n,v]..],"sv":[[n,v]..],"deps":[[n,v,null|[[n,v,opt]..]]..]}` →
+`{"out":"ok","lines":[..],"items":[..]}` or `{"out":"error","err":kind}`.
+`{"m":"c17","op":"classify","lines":[..]}` → per line: blank / setup / other after comment stripping (no substitution). -/
+def handle : Handler := fun j => do
+  let op := match j.getObjVal? "op" >>= Json.getStr? with
+    | .ok s => s
+    | .error _ => "expand"
+  let lines ← jstrs j "lines"
+  if !lines.all wellFormedLine then throw "a line contains an interior newline"
+  match op with
+  | "classify" =>
+    pure (Json.mkObj [("kinds", Json.arr (lines.map fun l =>
+      if isBlankOrComment l then Json.str "blank"
+      else match searchRex (stripComment l) with
+        | some m => Json.mkObj [("optional", m.optional), ("args", ofStr m.args), ("len", Json.num m.len)]
+        | none => Json.str "other").toArray)])
+  | "re" =>
+    -- the hand-translated regular expressions and string helpers, one answer per line, for the differential test against `re`
+    pure (Json.mkObj [("res", Json.arr (lines.map fun l =>
+      Json.mkObj [("blank", isBlankOrComment l), ("nocomment", ofStr (stripComment l)),
+        ("rex", match searchRex l with
+          | some m => Json.mkObj [("optional", m.optional), ("args", ofStr m.args), ("len", Json.num m.len)]
+          | none => Json.null),
+        ("preExact", preExactRe l), ("openBrace", endsWithOpenBrace l), ("closeBrace", isCloseBrace l),
+        ("split", ofStrs (splitWs l)), ("strip", ofStr (strip l)), ("relop", hasRelop l),
+        ("badrelop", badRelop l), ("first", ofStr (firstField l)), ("bracket", ofStrs (splitBracket l)),
+        ("external", contains sExternal l)]).toArray)])
+  | "expand" =>
+    let pins ← pairs j "pins"
+    let spv ← pairs j "spv"
+    let sv ← pairs j "sv"
+    let deps ← depsOf j
+    let D : AnswerData := { pins := pins, spv := spv, sv := sv, deps := deps }
+    let A : Answers := D.toAnswers
+    let o : Opts := { force := ← jbool j "force", expandVersions := ← jbool j "expandVersions",
+                      addExactBlock := ← jbool j "addExactBlock", recurse := ← jbool j "recurse",
+                      toplevel := ← jstrOpt j "toplevel" }
+    match expandItems A o lines with
+    | .error .missingAnswer => throw "missing answer: the request lacks a deps entry the model consulted"
+    | .error e => pure (Json.mkObj [("out", "error"), ("err", errName e)])
+    | .ok items =>
+      pure (Json.mkObj [("out", "ok"), ("lines", ofStrs (items.map renderItem)),
+                        ("items", Json.arr (items.map itemJson).toArray),
+                        -- the hypotheses of C17_exact_reproduces_partial evaluated on these answers
+                        ("hyps", Json.mkObj [("depsSound", D.depsSound), ("pinsAgree", D.pinsAgree),
+                                             ("covered", D.covered o lines), ("noExactLine", noExactLine A o lines)])])
+  | _ => throw s!"unknown op {op}"
+
 end EupsModel.Drv.C17
